@@ -407,7 +407,10 @@ impl Sender {
         let mut credits = AssignedCredits::default();
 
         while !ports_response.is_empty() {
-            if credits.is_empty() {
+            if (credits.available() as usize) < size_of::<u32>() {
+                // Hand back credits insufficient for a port before waiting for more.
+                drop(std::mem::take(&mut credits));
+
                 let data_len = ports_response.len() * size_of::<u32>();
                 credits =
                     self.credits.request(data_len.min(u32::MAX as usize) as u32, size_of::<u32>() as u32).await?;
